@@ -997,6 +997,12 @@ impl<T: Transport, Env: UtpEnvironment> VirtualSocket<T, Env> {
     ) -> crate::Result<()> {
         let mut result = ProcessIncomingMessageResult::default();
 
+        // We can get here already Closed if the previous poll stopped on a full transport before
+        // the last ACK went out. Whatever arrives in the meantime is of no interest anymore.
+        if matches!(self.state, VirtualSocketState::Closed) {
+            return Ok(());
+        }
+
         let mut counter = 0u32;
         while let Poll::Ready(msg) = self.rx.poll_recv(cx) {
             let msg = match msg {
